@@ -815,6 +815,18 @@ class Extractor(object):
             base = E(node.value)
             if base[0] == "global":
                 return ("global", base[1] + "." + node.attr)
+            if self.inliner is not None and self.depth < 2 and isinstance(node.ctx, ast.Load):
+                # a property the rules do not know (introduced after the pinned tree): its body in place of the access
+                tgt = self.inliner(("property", base, node.attr), [], ())
+                if tgt is not None:
+                    fn_node, binding, label = tgt
+                    sub = Extractor(fn_node, const_resolver=self.const_resolver, inliner=self.inliner, parent=self, init_env=binding,
+                                    depth=self.depth + 1)
+                    root = self
+                    while root.parent is not None:
+                        root = root.parent
+                    root.inlined.append(label)
+                    return sub.run_inlined(guards, loops)
             return ("attr", base, node.attr)
         if isinstance(node, ast.Subscript):
             base = E(node.value)
@@ -1039,8 +1051,9 @@ class Extractor(object):
                 return rows
             return None
         if lit is None and isinstance(node, ast.Name) and kind is None and node.id not in env and node.id not in self.local_names \
-                and self.const_resolver is not None and node.id.startswith("_"):
-            # a private module-level table (introduced to drive a loop): its rows written out
+                and self.const_resolver is not None:
+            # a module-level table introduced after the pinned tree (to drive a loop): its rows written out.  The resolver
+            # answers only for such tables
             v = self.const_resolver(node.id)
 
             def simple(x):
